@@ -65,7 +65,7 @@ for sym, op in OPS:
        ensures=[('length', 'result.len == this.len'),
                 ('elementwise', 'forall(lambda k: Implies(And(0 <= k, k < this.len), eqv(result[k], %s(this[k], rhs))))' % f)])
     # scalar (op) array
-    fn('dsplib::' + bop, TU, sig='&, const base_array<', key='scalar %s base_array' % bop, serves=['C03'], pure=True,
+    fn('dsplib::' + bop, TU, sig='&, const base_array<', sig_not='std::complex', key='scalar %s base_array' % bop, serves=['C03'], pure=True,
        ensures=[('length', 'result.len == rhs.len'),
                 ('elementwise', 'forall(lambda k: Implies(And(0 <= k, k < rhs.len), eqv(result[k], %s(lhs, rhs[k]))))' % f)],
        loops={1: {'inv': [('len', 'r.len == rhs.len'),
@@ -79,3 +79,51 @@ fn(A + 'operator-', TU, sig='() const', serves=['C03'], pure=True,
                       ('done', 'forall(lambda k: Implies(And(0 <= k, k < i), r[k] == -_vec[k]))'),
                       ('todo', 'forall(lambda k: Implies(And(i <= k, k < r.len), r[k] == _vec[k]))')]}})
 fn(A + 'operator+', TU, sig='&() const', serves=['C03'], returns_ref='this', ensures=[('identity', 'same(result, this)')])
+
+# ---------------------------------------------------------------------------------------------------
+# selection, comparison, concatenation (C03: exact elements in order; C05: misuse -> exception, never UB)
+fn(A + 'operator[]', TU, sig='(const std::vector<int> &) const', key='base_array::operator[](vector<int>)',
+   serves=['C03', 'C05'], pure=True,
+   throws='exists(lambda k: And(0 <= k, k < idxs.len, Or(idxs[k] < 0, idxs[k] >= this.len)))',
+   ensures=[('length', 'result.len == idxs.len'),
+            ('gather', 'forall(lambda k: Implies(And(0 <= k, k < idxs.len), result[k] == this[idxs[k]]))')],
+   loops={1: {'inv': [('len', 'res.len == idxs.len'),
+                      ('range', 'forall(lambda k: Implies(And(0 <= k, k < i), And(0 <= idxs[k], idxs[k] < _vec.len)))'),
+                      ('done', 'forall(lambda k: Implies(And(0 <= k, k < i), res[k] == _vec[idxs[k]]))')]}})
+
+fn(A + 'operator[]', TU, sig='(const std::vector<bool> &) const', key='base_array::operator[](vector<bool>)',
+   serves=['C03', 'C05'], pure=True,
+   throws='idxs.len != this.len',
+   ensures=[('bounded', 'And(0 <= result.len, result.len <= this.len)'),
+            ('all_selected', 'Implies(forall(lambda k: Implies(And(0 <= k, k < idxs.len), idxs[k])), And(result.len == this.len, forall(lambda k: Implies(And(0 <= k, k < this.len), result[k] == this[k]))))'),
+            ('none_selected', 'Implies(forall(lambda k: Implies(And(0 <= k, k < idxs.len), Not(idxs[k]))), result.len == 0)')],
+   loops={1: {'inv': [('count', 'And(0 <= res.len, res.len <= i)'),
+                      ('all', 'Implies(forall(lambda k: Implies(And(0 <= k, k < i), idxs[k])), And(res.len == i, forall(lambda k: Implies(And(0 <= k, k < i), res[k] == _vec[k]))))'),
+                      ('none', 'Implies(forall(lambda k: Implies(And(0 <= k, k < i), Not(idxs[k]))), res.len == 0)')]}})
+
+for op, sym in (('operator>', '>'), ('operator<', '<'), ('operator==', '==')):
+    fn(A + op, TU, sig='(const base_array<', key='base_array::%s(array)' % op, serves=['C05', 'C03'], pure=True,
+       throws='this.len != rhs.len',
+       ensures=[('length', 'result.len == this.len'),
+                ('elementwise', 'forall(lambda k: Implies(And(0 <= k, k < this.len), result[k] == (this[k] %s rhs[k])))' % sym)],
+       loops={1: {'inv': [('len', 'res.len == _vec.len'),
+                          ('done', 'forall(lambda k: Implies(And(0 <= k, k < i), res[k] == (_vec[k] %s rhs[k])))' % sym)]}})
+    fn(A + op, TU, sig='(double) const', key='base_array::%s(scalar)' % op, serves=['C05', 'C03'], pure=True,
+       ensures=[('length', 'result.len == this.len'),
+                ('elementwise', 'forall(lambda k: Implies(And(0 <= k, k < this.len), result[k] == (this[k] %s val)))' % sym)],
+       loops={1: {'inv': [('len', 'res.len == _vec.len'),
+                          ('done', 'forall(lambda k: Implies(And(0 <= k, k < i), res[k] == (_vec[k] %s val)))' % sym)]}})
+
+fn(A + 'operator|=', TU, key='base_array::operator|=', serves=['C03'], returns_ref='this', assigns=['this._vec'],
+   may_throw=True,
+   ensures=[('length', 'this.len == old.this.len + old.rhs.len'),
+            ('head', 'forall(lambda k: Implies(And(0 <= k, k < old.this.len), this[k] == old.this[k]))'),
+            ('tail', 'forall(lambda k: Implies(And(0 <= k, k < old.rhs.len), eqv(this[old.this.len + k], old.rhs[k])))')])
+fn(A + 'operator|', TU, key='base_array::operator|', serves=['C03'], pure=True, may_throw=True,
+   ensures=[('length', 'result.len == this.len + rhs.len'),
+            ('head', 'forall(lambda k: Implies(And(0 <= k, k < this.len), eqv(result[k], this[k])))'),
+            ('tail', 'forall(lambda k: Implies(And(0 <= k, k < rhs.len), eqv(result[this.len + k], rhs[k])))')])
+fn(A + 'operator=', TU, sig='&(const base_array<', key='base_array::operator=(copy)', serves=['C03'],
+   returns_ref='this', assigns=['this._vec'],
+   scenarios=[{'name': 'distinct'}, {'name': 'self', 'alias': {'rhs': 'this'}}],
+   ensures=[('copy', 'this == old.rhs')])
